@@ -53,6 +53,10 @@ ghost field Reader.gfile int
 // definition of the derived index timestamp: the running maximum of the record times
 pred tsDef(f int) := forall k :: 0 <= k && k < recN(f) ==> recTs(f, k) == max(recMicro(f, k), ite(k > 0, recTs(f, k - 1), 0))
 
+// what holds of the record abstraction of EVERY file, damaged or not: boundaries are consistent, and the
+// derived timestamp and key hash are what their definitions say
+pred absDef(f int) := wfFile(f) && tsDef(f) && (forall k :: 0 <= k && k < recN(f) ==> recHash(f, k) == keyHash(recKey(f, k)))
+
 // position p is a record boundary of f: the start of record recIdx(f,p), or the end of the valid prefix
 pred atIdx(f int, p int64) :=
     0 <= recIdx(f, p) && recIdx(f, p) <= recN(f) && recPos(f, recIdx(f, p)) == p
@@ -91,7 +95,7 @@ func OpenReaderMem
     ensures err != nil ==> ioerr(err)
 func OpenReader
     flags assumed
-    ensures err == nil ==> r != nil && fresh(r) && r.gfile == fsContent[path]
+    ensures err == nil ==> r != nil && fresh(r) && r.gfile == fsContent[path] && r.Path == path
     // the version found in the file header; records start right after the header (V2) or at 0 (V1)
     ensures err == nil ==> (r.v == V1 || r.v == V2) && r.v == verOf(r.gfile) && recPos(r.gfile, 0) == ite(r.v == V1, 0, 8)
     ensures err != nil ==> ioerr(err)
